@@ -158,8 +158,11 @@ def run_check(prop, tier, seed, jobs, runs=None, budget=None, write_evidence=Tru
         digests.extend((p.name, i, d_) for i, d_ in tot["digests"])
         # group violations by canonical signature
         seen = {}
-        for v in tot["violations"]:
-            if len(seen) >= 4 and time.time() - t0 > 600:
+        canon_cap = int(os.environ.get("NIXSIM_MAX_CANON", "40"))
+        for n_canon, v in enumerate(tot["violations"]):
+            if (len(seen) >= 4 and time.time() - t0 > 600) or n_canon >= canon_cap:
+                # a broken tree makes most runs fail: the first violations are enough to report
+                _print("  (%d further violating runs not canonicalised)" % (len(tot["violations"]) - n_canon))
                 break
             r, knobs = canonicalise(p, v)
             if r["violation"] is None:
